@@ -3,7 +3,7 @@
    records; ties keep file order). *)
 From Coq Require Import Lia Sorted Permutation.
 From RM Require Import Base.Word C08.Model C08.Proofs C08.Tie C08.WinProofs C08.EndToEnd Gen.C08Tables Gen.CfiOps
-                       C06.Model C06.GenModel C06.Proofs C06.Proofs6 C06.Proofs9 C06.Driver C06.GenDriver C06.FileTable C06.Proofs15.
+                       C06.Model C06.GenModel C06.Proofs C06.Proofs3 C06.Proofs4 C06.Proofs6 C06.Proofs9 C06.Driver C06.GenDriver C06.FileTable C06.Proofs15.
 Open Scope Z_scope.
 
 Section First.
@@ -112,4 +112,22 @@ Theorem file_walk_first_wins : forall S (ops : wops S) p E r1 r0 r2 addr s, u64_
 Proof.
   intros S ops p E r1 r0 r2 addr s H Hc H1 H2. destruct (file_first_wins p r1 r0 r2 addr H Hc H1 H2) as [t [Ht Hg]].
   unfold gen_walk_file. rewrite Ht, Hg. apply walk_of_finished. exact Hc.
+Qed.
+
+(* the documented result for a FILE: when the covering record has every other record beside it, or has the smallest
+   key, the unwind step over the file is cfi_spec of that record *)
+Theorem file_refines_spec : forall w p E r1 r0 r2 addr, u64_file (r1 ++ r0 :: r2) -> cfi_covers r0 addr = true ->
+  ((forall r', In r' (r1 ++ r2) -> beside r0 r') \/
+   ((forall r', In r' r1 -> has_range r' -> key_lt r0 r') /\ (forall r', In r' r2 -> has_range r' -> ~ key_lt r' r0))) ->
+  C06.Proofs3.env_wf E -> C06.Proofs4.all_documented r0 addr ->
+  match gen_walk_file (mock_ops w) p E (r1 ++ r0 :: r2) addr m_init, cfi_spec w E r0 addr with
+  | Ret (Some s), Some (cfa, ra, regs) => m_cfa s = Some cfa /\ m_ra s = Some ra /\ forall n, m_regs s n = regs n
+  | Ret None, None => True
+  | _, _ => False
+  end.
+Proof.
+  intros w p E r1 r0 r2 addr H Hc Hsel Hwf Hd.
+  assert (Ew : gen_walk_file (mock_ops w) p E (r1 ++ r0 :: r2) addr m_init = gen_walk_frame_cfi (mock_ops w) p E r0 addr m_init).
+  { destruct Hsel as [Hb|[H1 H2]]; [apply file_walk_isolated|apply file_walk_first_wins]; assumption. }
+  rewrite Ew. apply gen_walk_refines_spec; assumption.
 Qed.
